@@ -28,7 +28,9 @@ EXPLANATION = (
     'presence of its key, never from its value; R-C06.7 the mapping type the '
     'storage loader produces (json.loads object_pairs_hook) is accepted by '
     'the type guard in front of every marker test of the reader dispatch; '
-    'R-C06.4 (as reformulated) every attribute written through serialize_to_signature is compared by __eq__ through a recursive tuple->list normaliser; R-C06.8 every name in FieldSignature._ATTRIBUTE_DEFAULTS is a constructor parameter of the django field class (installed Django source); R-C06.9 from_*() and deserialize() agree on the empty normal form (None) of every constructor argument; R-C06.10 no field option name is shadowed by a class member of FieldSignature (deserialize skips hasattr(cls, name)).')
+    'R-C06.4 (as reformulated) every attribute written through serialize_to_signature is compared by __eq__ through a recursive tuple->list normaliser; R-C06.8 every name in FieldSignature._ATTRIBUTE_DEFAULTS is a constructor parameter of the django field class (installed Django source); R-C06.9 from_*() and deserialize() agree on the empty normal form (None) of every constructor argument; R-C06.10 no field option name is shadowed by a class member of FieldSignature (deserialize skips hasattr(cls, name)).'
+    ' '
+    "R-C06.11 a version-2 signature is rebuilt from the stored dictionary alone: environment reads (get_app, get_app_upgrade_info, ...) inside deserialize() are reachable only on the sig_version == 1 branch (CFG reachability with the version tests' edges dropped).")
 NOT_DECIDED = (
     'Round-trip equality for all values (nested Q/F/expressions, unicode, '
     'enums, legacy pickles) - needs execution.')
@@ -953,7 +955,71 @@ def r6_presence_not_value(ctx):
         ctx.ok(f, 'attributes are skipped only when their key is absent')
 
 
+ENVIRONMENT_READERS = {
+    'get_app', 'get_apps', 'get_app_upgrade_info', 'get_model', 'get_models',
+    'get_app_label', 'get_app_name', 'from_database', 'get_legacy_app_label',
+    'has_migrations_module', 'get_evolutions_module', 'get_applied_migrations_by_app',
+    'is_app_registered',
+}
+
+
+def r11_current_format_read_from_stored_data_alone(ctx):
+    """serialize() omits what is None/empty, so for the current format
+    (version 2) "key absent" is itself stored information.  deserialize()
+    must rebuild a version-2 object from the stored dictionary alone:
+    consulting the installed apps / the database (get_app,
+    get_app_upgrade_info, ...) is the version-1 upgrade heuristic and may be
+    reachable only on the `sig_version == 1` branch - otherwise what is read
+    back depends on the environment at load time and differs from what was
+    written."""
+    ctx.rule('R-C06.11')
+    p = ctx.program
+    n_des, n_env = 0, 0
+    for cname in CLASSES:
+        cls = p.cls(SIG, cname)
+        des = cls.methods.get('deserialize')
+        if des is None:
+            continue
+        n_des += 1
+        g = ctx.cfg(des)
+        drop = set()
+        for t in g.nodes:
+            if t.kind not in ('test', 'operand') or \
+                    not isinstance(t.ast, ast.Compare) or \
+                    len(t.ast.ops) != 1:
+                continue
+            l, op, r = t.ast.left, t.ast.ops[0], t.ast.comparators[0]
+            if not (isinstance(l, ast.Name) and l.id == 'sig_version' and
+                    isinstance(r, ast.Constant)):
+                continue
+            if isinstance(op, ast.Eq):
+                drop.add((t.id, 'T' if r.value == 1 else 'F'))
+            elif isinstance(op, ast.NotEq):
+                drop.add((t.id, 'F' if r.value == 1 else 'T'))
+        v2 = g.reachable([g.entry], follow_exc=False, drop_edges=drop)
+        for node in g.nodes:
+            for c in node.calls():
+                if call_name(c) in ENVIRONMENT_READERS:
+                    n_env += 1
+                    if node.id in v2:
+                        ctx.finding(des, c, '%s.deserialize reaches %s() for '
+                                    'a version-2 signature: a stored app '
+                                    'entry without the key comes back with a '
+                                    'value guessed from the installed '
+                                    'apps/the database at load time, not '
+                                    'with what was written' % (
+                                        cname, call_name(c)),
+                                    key='v2-reads-environment:%s' %
+                                    call_name(c))
+                    else:
+                        ctx.ok(des, '%s() only on the version-1 path' %
+                               call_name(c), c)
+    ctx.floor('deserialize methods of the signature classes', n_des, 5)
+    ctx.counts['R-C06.11 environment reads inside deserialize'] = n_env
+
+
 def run(ctx):
+    r11_current_format_read_from_stored_data_alone(ctx)
     r6_presence_not_value(ctx)
     r1_key_agreement(ctx)
     r2_state_serialised(ctx)
